@@ -1,4 +1,5 @@
 import HapModel.Model.GenoIO
+import HapModel.Model.PgenMatrix
 /-!
 # C07 — Genotypes written to VCF/BCF or PGEN read back unchanged   (PARTIAL)
 
@@ -34,5 +35,31 @@ theorem empty_roundtrip (k : Nat) (hk : 0 < k) : chunksFrom k 0 hk 0 = [] := by
 
 /-- the allele count handed to pgenlib bounds every allele index drawn from the variant's allele list (F07) -/
 theorem allele_cts_sound (alleles : List String) (i : Nat) (hi : i < alleles.length) : i < alleleCt alleles := hi
+
+/-- **whole matrices**: a rectangular matrix written to PGEN with any chunk size and read back with any other comes back
+    as itself up to what the format cannot hold (`pgenStore` per call), every call at its own (sample, variant) place -/
+theorem pgen_matrix_roundtrip (kw kr : Nat) (hw : 0 < kw) (hr : 0 < kr) (M : PgenMatrix.Matrix) (nv : Nat)
+    (hM : PgenMatrix.Rect M nv) :
+    PgenMatrix.read kr hr (PgenMatrix.write kw hw M nv) M.length nv = M.map (fun row => row.map pgenStore) :=
+  PgenMatrix.read_write kw kr hw hr M nv hM
+
+/-- the file itself does not depend on the chunk size it was written with -/
+theorem pgen_file_independent_of_chunk_size (k₁ k₂ : Nat) (h₁ : 0 < k₁) (h₂ : 0 < k₂) (M : PgenMatrix.Matrix) (nv : Nat) :
+    PgenMatrix.write k₁ h₁ M nv = PgenMatrix.write k₂ h₂ M nv := by
+  rw [PgenMatrix.write_eq, PgenMatrix.write_eq]
+
+/-- a second trip (any chunk sizes again) changes nothing more -/
+theorem pgen_matrix_second_trip_is_identity (k1 k2 k3 k4 : Nat) (h1 : 0 < k1) (h2 : 0 < k2) (h3 : 0 < k3) (h4 : 0 < k4)
+    (M : PgenMatrix.Matrix) (nv : Nat) (hM : PgenMatrix.Rect M nv) :
+    let M1 := PgenMatrix.read k2 h2 (PgenMatrix.write k1 h1 M nv) M.length nv
+    PgenMatrix.read k4 h4 (PgenMatrix.write k3 h3 M1 nv) M1.length nv = M1 :=
+  PgenMatrix.read_write_twice k1 k2 k3 k4 h1 h2 h3 h4 M nv hM
+
+/-- non-vacuity: a 2 × 3 matrix with an unphased heterozygote in descending order, written one variant at a time and read two
+    at a time -/
+example :
+    PgenMatrix.read 2 (by decide) (PgenMatrix.write 1 (by decide) [[⟨1, 0, false⟩, ⟨0, 0, false⟩, ⟨0, 1, true⟩], [⟨255, 255, false⟩, ⟨1, 1, true⟩, ⟨2, 0, false⟩]] 3) 2 3
+      = [[⟨0, 1, false⟩, ⟨0, 0, true⟩, ⟨0, 1, true⟩], [⟨255, 255, true⟩, ⟨1, 1, true⟩, ⟨0, 2, false⟩]] := by
+  simp [PgenMatrix.read, PgenMatrix.write, PgenMatrix.writeChunk, PgenMatrix.cell, Chunks.chunksFrom, pgenStore, PgenMatrix.dflt, List.range, List.range.loop, List.range']
 
 end C07
